@@ -122,7 +122,84 @@ def _loop_table():
                 f"def {name} : Train.LoopTable := Train.loopTable\n"), {name: f"skipped: {e}"}
 
 
-EXTRA["C16"] = _loop_table
+# --------------------------------------------------------------------------------------------------
+# per-engine handling of the loss: one row per class of direct/nn/**/*_engine.py, direct/nn/mri_models.py, direct/nn/ssl/mri_models.py
+def engine_files():
+    nn = REPO / "direct" / "nn"
+    files = sorted(nn.glob("*/*_engine.py")) + [nn / "mri_models.py", nn / "ssl" / "mri_models.py"]
+    return [f for f in files if f.exists()]
+
+
+def engine_row(cls: ast.ClassDef):
+    fns = {f.name: f for f in cls.body if isinstance(f, ast.FunctionDef)}
+    if "_do_iteration" not in fns and "forward_function" not in fns:
+        return None
+    scope = [fns[n] for n in ("_do_iteration", "forward_function") if n in fns]
+    n_back, guarded, scaled, in_loop, retain, detached = 0, True, True, False, False, False
+    mentions, touches = False, False
+
+    def walk(node, under_training, in_for):
+        nonlocal n_back, guarded, scaled, in_loop, retain, detached, mentions, touches
+        for ch in ast.iter_child_nodes(node):
+            ut, inf = under_training, in_for
+            if isinstance(node, ast.If) and ch in node.body and "training" in ast.unparse(node.test):
+                ut = True
+            if isinstance(node, (ast.For, ast.While)) and ch in node.body:
+                inf = True
+            if isinstance(ch, ast.Call) and isinstance(ch.func, ast.Attribute):
+                f = ast.unparse(ch.func)
+                if ch.func.attr == "backward" and not f.endswith("backward_operator"):
+                    n_back += 1
+                    guarded &= ut
+                    recv = ast.unparse(ch.func.value)
+                    scaled &= recv.replace(" ", "").startswith("self._scaler.scale(")
+                    in_loop |= inf
+                    retain |= any(k.arg == "retain_graph" for k in ch.keywords)
+                    detached |= "detach" in recv
+                if ch.func.attr in ("zero_grad",) or f.endswith("optimizer.step") or f.endswith("_scaler.step") \
+                        or f.endswith("_scaler.update"):
+                    touches = True
+            if isinstance(ch, ast.Attribute) and ch.attr == "gradient_steps":
+                mentions = True
+            walk(ch, ut, inf)
+
+    for fn in scope:
+        walk(fn, False, False)
+    b = lambda v: "true" if v else "false"  # noqa: E731
+    return (f'{{ name := "{cls.name}", definesDoIteration := {b("_do_iteration" in fns)}, nBackward := {n_back}, '
+            f"guarded := {b(guarded)}, scaled := {b(scaled)}, inLoop := {b(in_loop)}, retainGraph := {b(retain)}, "
+            f"mentionsGradSteps := {b(mentions)}, touchesOptimizer := {b(touches)}, detached := {b(detached)} }}")
+
+
+def _engine_table():
+    name = "engineRows"
+    try:
+        rows = []
+        for f in engine_files():
+            tree = parse_file(f)
+            for cls in tree.body:
+                if isinstance(cls, ast.ClassDef):
+                    r = engine_row(cls)
+                    if r:
+                        rows.append(r)
+        if not rows:
+            raise Untranslatable("no engine classes found")
+        return (f"/-- translated from direct/nn/**: how every engine class back-propagates its loss -/\n"
+                f"def {name} : List Train.EngineRow := [\n  " + ",\n  ".join(rows) + "]\n"), {name: f"translated ({len(rows)} classes)"}
+    except Untranslatable as e:
+        return (f"/-- SKIPPED ({e}) -/\ndef {name} : List Train.EngineRow := "
+                f'[{{ name := "MRIModelEngine", definesDoIteration := true, nBackward := 1, guarded := true, scaled := true, '
+                f"inLoop := false, retainGraph := false, mentionsGradSteps := false, touchesOptimizer := false, "
+                f"detached := false }}]\n"), {name: f"skipped: {e}"}
+
+
+def _c16_extra():
+    t1, s1 = _loop_table()
+    t2, s2 = _engine_table()
+    return t1 + "\n" + t2, {**s1, **s2}
+
+
+EXTRA["C16"] = _c16_extra
 
 
 def _guard_of_event(event: str, which: str):
